@@ -57,7 +57,21 @@ RULE = (
     'dataclasses.replace, ==, pickle, asdict, astuple, property reads, the bound methods as nodes of a '
     'transform_coords graph, a refused call that was caught, the same calls again), after each one the '
     'chopper is compared with what it was constructed with and the computation is repeated.  Operands '
-    'with variances (one carrier at a time) and one call with 2**20 + 7 and one with 3 x 400001 angles per run'
+    'with variances (one carrier at a time) and one call with 2**20 + 7 and one with 3 x 400001 angles per run.  '
+    'STRUCTURED SLIT SETS (deterministic grid: rotational symmetry of order 2..6, a motif repeated 2 or 3 times, '
+    'slits as wide as the gaps, equal widths only, equal spacing only, single slit x listed ascending / descending / '
+    'rotated / shuffled x deg / rad x within one turn / end > 360 / negative begin / a slit written on another turn, '
+    'exactly structured or off by 1e-12 / 1e-9 / 1e-6) x EVERY RATIO p/q with q = 2..6, p = 2..12 in lowest terms '
+    '(29 ratios) x both senses x every entry point (from_disk_chopper with q and other numbers of pulses), the ratio '
+    'carried by the pulse frequency handed to one chopper object, by dataclasses.replace(frequency=) or by a fresh '
+    'construction, in float64 or as whole-number frequencies: refused by the ratio alone; each set also once in '
+    'phase.  IN-PLACE MODIFICATION of an operand between two calls with the very same objects (15 kinds: pulse '
+    'frequency / chopper frequency value, sign, unit; phase; beam position; one slit edge, a slice, all edges to the '
+    'other angle unit; out of phase and back): judged against the new contents and compared bit for bit with a chopper '
+    'freshly constructed from copies; results obtained earlier keep their bits; writing into results changes neither '
+    'chopper nor arguments nor a repetition.  Numbers of slits / angles equal to the number of rotations used inside, '
+    'one below, one above, and 2 / 3; slit dimension names that are not in NFC / NFKC form (results along the very '
+    'same name); the first call in a fresh interpreter that imported only the module of the entry point (same bits)'
 )
 ASSUMPTIONS = [
     'numpy long double (x87 80 bit) evaluates the disk angle alpha(dt) = beam_position + phase - '
@@ -408,6 +422,14 @@ class Monitors:
         fz = self.frozen.get(id(ch))
         return fz if fz is not None and fz.ref is ch else ch
 
+    def rebase(self, ch):
+        """The HARNESS rewrote fields of this chopper in place (round 7, class 'in-place modification between
+        two calls'): from now on the disk the property speaks about is the one with the new contents, and nothing
+        that was observed before says anything about it."""
+        self.freeze(ch)
+        self.pairs.clear()
+        self.cache.clear()
+
     def adopt(self, copy_, original):
         """A copy of a chopper stands for the same disk as the original."""
         fz = self.frozen.get(id(original))
@@ -455,6 +477,8 @@ class Monitors:
                     exception=None if exc is None else f'{type(exc).__name__}: {exc}'[:300])
         if ri['rel'] <= ACCEPT_REL:
             ctx.event('freq.must_accept')
+            if self.case.get('class'):
+                ctx.event(f'freq.must_accept.{self.case["class"]}')
             if ri['rel'] > 0:
                 ctx.hit('in-phase ratio perturbed below 1e-10')
             if isinstance(exc, ValueError) and 'out of phase' in str(exc):
@@ -466,6 +490,9 @@ class Monitors:
         if ri['rel'] > REJECT_REL:
             ctx.event('freq.must_reject')
             ctx.hit('out-of-phase ratio')
+            if self.case.get('class'):
+                ctx.event(f'freq.must_reject.{self.case["class"]}')
+                ctx.event(f'freq.must_reject.{self.case["class"]}.{where}')
             if ri['rel'] < 1e-2:
                 ctx.hit('ratio perturbed by 1e-7..1e-2')
             if exc is None:
@@ -1607,12 +1634,38 @@ def requirements(tier):
         'state.fields_compared': 600 * reps, 'state.results_compared': 500 * reps,
         'graph.node_result_compared': 60 * reps, 'angle_at_beam.large_array': 2,
     })
+    # round 7: structured slit sets x rational ratios, in-place modification, aliasing, sizes, non-NFC names,
+    # first call in a fresh interpreter
+    sg = struct_grid()
+    forced += [f'structured slits: {struct_label(*k)}' for k in STRUCT_KINDS + STRUCT_CONTROLS]
+    forced += [f'structured slits listed {x}' for x in STRUCT_LISTINGS]
+    forced += [f'structured slits: {x}' for x in STRUCT_TDC + STRUCT_EXACT]
+    forced += ['structured slits in deg', 'structured slits in rad']
+    forced += [f'ratio {p}/{q} on structured slits' for p, q in PQ_RATIOS]
+    forced += [f'rational ratio carried by: {m}' for m in STRUCT_MODES]
+    forced += ['rational ratio, clockwise', 'rational ratio, anticlockwise',
+               'rational ratio of whole-number frequencies']
+    forced += [f'modified in place: {m}' for m in INPLACE_MODS] + ['results written in place']
+    forced += [f'number of slits vs rotations: {n} slit(s) at ratio {label}' for label, _, n in size_grid()]
+    forced += [f'slit dimension not in NFC/NFKC form: {d!a}' for d in NON_NFC_DIMS]
+    forced += [f'first call in a fresh interpreter: {e}' for e in FRESH_ENTRIES]
+    n_pq = len(sg) * len(PQ_RATIOS) * reps
+    ev.update({
+        'freq.must_reject.structured': 4 * n_pq, 'freq.must_accept.structured': 4 * len(sg) * reps,
+        'freq.must_reject.inplace': 6 * reps,
+        'inplace.second_call_compared': (len(INPLACE_MODS) + 1) * reps, 'alias.earlier_result_compared': len(INPLACE_MODS) * reps,
+        'alias.result_written': 20 * reps, 'alias.repetition_compared': reps,
+        'result.dim_name_compared': len(NON_NFC_DIMS) * reps, 'fresh.first_call_compared': len(FRESH_ENTRIES),
+    })
+    ev.update({f'freq.must_reject.structured.{e}': n_pq for e in STRUCT_ENTRIES})
     return {
         'events': ev,
         'forced': forced,
         'counters': {'cascade_calls_in_phase': 150 * (20 if big else 1),
                      'named_dimension_choppers': len(dim_grid()) * reps,
-                     'call_sequences': len(seq_grid()) * reps},
+                     'call_sequences': len(seq_grid()) * reps,
+                     'structured_slit_sets': len(sg) * reps, 'structured_out_of_phase_calls': 4 * n_pq,
+                     'inplace_sequences': len(INPLACE_MODS) * reps, 'size_cases': len(size_grid()) * reps},
     }
 
 
@@ -1973,6 +2026,674 @@ def deterministic_round6(shard, rep, ctx, mon, DiskChopper, Chopper):
             check_state(mon, ctx, ch, 'the computational calls')
 
 
+# ------------------------------------------------------------------ round 7 ---
+# STRUCTURED SLIT SETS x RATIONAL FREQUENCY RATIOS.  "Frequencies that are not ... an integer multiple or divisor of
+# the pulse frequency are rejected" is quantified over every chopper: the verdict depends on the ratio alone, not
+# on what the disk looks like.  Slit sets with structure (rotational symmetry of order 2..6, a motif repeated 2 or 3
+# times, slits as wide as the gaps, equal widths only, equal spacing only, a single slit), listed in any order, in
+# deg and rad, spanning top-dead-centre in both notations or with a slit written on another turn, exactly
+# structured or off by 1e-12 .. 1e-6, are put to every ratio p/q with q = 2..6, p = 2..12 (lowest terms, within
+# 1/5 .. 10) through every entry point -- the ratio carried by the pulse frequency handed to the same chopper
+# object, by dataclasses.replace(frequency=) or by a fresh construction, in float64 or in whole numbers -- and once
+# to an in-phase ratio (all openings judged on the simulated disk).
+PQ_RATIOS = tuple((p, q) for q in range(2, 7) for p in range(2, 13)
+                  if np.gcd(p, q) == 1 and 0.2 <= p / q <= 10)
+STRUCT_KINDS = (tuple(('symmetric', n, m) for n, m in ((2, 2), (3, 3), (4, 4), (5, 5), (6, 6), (4, 2), (6, 2), (6, 3)))
+                + tuple(('slits as wide as gaps', m, m) for m in (2, 3, 4)))
+STRUCT_CONTROLS = (tuple(('equal widths only', n, 1) for n in (2, 3, 4))
+                   + tuple(('equal spacing only', n, 1) for n in (2, 3, 4)) + (('single slit', 1, 1),))
+STRUCT_LISTINGS = ('ascending', 'descending', 'rotated', 'shuffled')
+STRUCT_TDC = ('within_turn', 'end_gt_turn', 'negative_begin', 'other_turn')
+STRUCT_EXACT = ('exact', 'off by 1e-12', 'off by 1e-9', 'off by 1e-6')
+STRUCT_MODES = ('pulse frequency', 'replace(frequency=)', 'fresh construction')
+STRUCT_ENTRIES = ('time_offset_open', 'time_offset_close', 'open_duration', 'from_disk_chopper')
+
+
+def struct_label(kind, n, m):
+    return f'{kind}, {n} slit(s)' + (f', order {m}' if m > 1 else '')
+
+
+def struct_grid(rep=0):
+    """(kind, listing, angle unit, TDC class): kind x listing x unit in full, the TDC class on two diagonals of the
+    listing x TDC square that move with the repetition (all 16 pairs after two repetitions); the controls without
+    structure shuffled, kind x unit x two TDC classes."""
+    g = []
+    for a, k in enumerate(STRUCT_KINDS):
+        for b, lst in enumerate(STRUCT_LISTINGS):
+            for c, u in enumerate(('deg', 'rad')):
+                for d in (0, 2):
+                    g.append((k, lst, u, STRUCT_TDC[(a + b + c + d + rep) % 4]))
+    for a, k in enumerate(STRUCT_CONTROLS):
+        for c, u in enumerate(('deg', 'rad')):
+            for d in (0, 2):
+                g.append((k, 'shuffled', u, STRUCT_TDC[(a + c + d + rep) % 4]))
+    return g
+
+
+def gen_structured(rng, kind, n, m, listing, a_unit, tdc, exact):
+    """Slit set with the stated structure, in whole degrees (exact in float64; in rad: structured to rounding),
+    ascending within [0, 360) first, then rotated / rewritten for the top-dead-centre class, perturbed, listed."""
+    sector = 360 // m if m > 1 else 360
+    if kind == 'symmetric':
+        k = n // m
+        while True:
+            x = np.sort(rng.choice(np.arange(0, sector), size=2 * k, replace=False)).astype(float)
+            bb, ww = x[0::2], x[1::2] - x[0::2]
+            if ww.min() >= 2 and len(set(ww.tolist())) == k:
+                break
+        b = np.concatenate([bb + j * sector for j in range(m)])
+        w = np.tile(ww, m)
+    elif kind == 'slits as wide as gaps':
+        wv = 180 // m
+        b = float(rng.integers(0, sector - wv)) + np.arange(m) * float(sector)
+        w = np.full(m, float(wv))
+    elif kind == 'equal widths only':
+        wv = int(rng.integers(2, 360 // n - 4))
+        free = 360 - n * wv
+        while True:
+            cuts = np.sort(rng.choice(np.arange(1, free), size=n - 1, replace=False))
+            g = np.diff(np.concatenate([[0], cuts, [free]]))
+            if len(set(g.tolist())) > 1:
+                break
+        b = np.concatenate([[0.0], np.cumsum(wv + g[:-1])]).astype(float)
+        w = np.full(n, float(wv))
+    elif kind == 'equal spacing only':
+        sp = 360 // n
+        w = rng.choice(np.arange(2, sp - 2), size=n, replace=False).astype(float)
+        b = float(rng.integers(0, sp - int(w.max()))) + np.arange(n) * float(sp)
+    else:
+        w = np.array([float(rng.integers(2, 300))])
+        b = np.array([float(rng.integers(0, 360 - int(w[0])))])
+    if tdc in ('end_gt_turn', 'negative_begin'):
+        js = n - 1
+        b = b + (360.0 - (b[js] + float(rng.integers(1, int(w[js])))))
+        if tdc == 'negative_begin':
+            b[js] -= 360.0
+    elif tdc == 'other_turn':
+        b[int(rng.integers(0, n))] += (360.0, -360.0, 720.0)[rng.integers(0, 3)]
+    e = b + w
+    if exact != 'exact':
+        rel = float(exact.split()[-1]) * (-1.0, 1.0)[rng.integers(0, 2)]
+        j = int(rng.integers(0, n))
+        if rng.random() < 0.5:
+            b[j] += rel * sector       # spacing off
+            e[j] += rel * sector
+        else:
+            e[j] += rel * w[j]         # width off
+    order = np.argsort(b, kind='stable')
+    if listing == 'descending':
+        order = order[::-1]
+    elif listing == 'rotated' and n > 1:
+        order = np.roll(order, int(rng.integers(1, n)))
+    elif listing == 'shuffled':
+        order = rng.permutation(n)
+    b, e = b[order], e[order]
+    if a_unit == 'rad':
+        b, e = np.radians(b), np.radians(e)
+    geo = slit_set_geometry(b * (1.0 if a_unit == 'rad' else np.pi / 180), e * (1.0 if a_unit == 'rad' else np.pi / 180),
+                            GAP_BAND)
+    if geo['verdict'] != 'valid' or geo['margin'] < 1e-3:
+        raise AssertionError(f'structured slit set {kind} {n} {m} {tdc} is not valid: {geo}')
+    return b, e
+
+
+def struct_case(rng, item, kind, n, m, listing, a_unit, tdc, exact):
+    b, e = gen_structured(rng, kind, n, m, listing, a_unit, tdc, exact)
+    whole = item % 7 == 3      # both frequencies whole numbers (int64), same unit
+    label, ratio = RATIOS[item % len(RATIOS)]
+    sign = (-1, 1)[(item // 2) % 2]
+    f_unit, fp_unit = F_UNITS[item % 3], F_UNITS[(item // 3) % 3]
+    if whole:
+        fp_unit = f_unit
+        fp_val = 60 * (1, 2, 14)[item % 3]            # divisible by 2, 3, 4, 5, 6
+        f_val = sign * int(round(ratio * fp_val))
+        assert abs(abs(f_val) / fp_val - ratio) < 1e-15
+        fp_hz = fp_val * F_UNIT_HZ[fp_unit]
+    else:
+        fp_hz = (14.0, 10.0, 50.0, 100 / 6, 60.0)[item % 5]
+        fp_val = float(fp_hz / F_UNIT_HZ[fp_unit])
+        f_val = float(sign * ratio * fp_hz / F_UNIT_HZ[f_unit])
+    c = dict(structured=struct_label(kind, n, m), listing=listing, exactness=exact, n_slits=n, overlap=None,
+             tdc=tdc, a_unit=a_unit, begin=b, end=e, dim='slit', fp=(fp_val, fp_unit), f=(f_val, f_unit),
+             ratio=label, sign=sign, band='exact', whole_number_frequencies=whole, fp_hz=float(fp_hz),
+             via=('ctor', 'nexus_edges', 'replace', 'nexus_begin_end')[item % 4], form=CTOR_FORMS[item % 3],
+             cascade_form=CASCADE_FORMS[item % len(CASCADE_FORMS)], mapping=NEXUS_MAPPINGS[(item // 4) % 4],
+             nexus_type=NEXUS_TYPES[(item // 5) % 4])
+    gen_frame(rng, c)
+    return c
+
+
+def drive_rational(case, descr, ch, ctx, mon, DiskChopper, Chopper, item, m):
+    """Every ratio p/q (q = 2..6) through every entry point: judged by the acceptance monitor from the ratio alone."""
+    import dataclasses
+
+    whole = case['whole_number_frequencies']
+    f_unit, fp_unit = case['f'][1], case['fp'][1]
+    fp0 = sc.scalar(case['fp'][0], unit=fp_unit)
+    for r, (p, q) in enumerate(PQ_RATIOS):
+        # (whole-number frequencies: always a new chopper, the source keeps its whole-number frequency)
+        mode = STRUCT_MODES[1 + (item + r) % 2] if whole else STRUCT_MODES[(0, 1, 0, 0, 2, 0)[(item + r) % 6]]
+        sign = (-1, 1)[(item + r // 3) % 2]
+        c, fp = ch, fp0
+        try:
+            if mode == 'pulse frequency':
+                f_abs_hz = abs(case['f'][0]) * F_UNIT_HZ[f_unit]
+                fp = sc.scalar(float(f_abs_hz * q / p / F_UNIT_HZ[fp_unit]), unit=fp_unit)
+                sign = case['sign']
+            else:
+                if whole:
+                    f_val = sign * p * (case['fp'][0] // q)
+                else:
+                    f_val = float(sign * (p / q) * case['fp_hz'] / F_UNIT_HZ[f_unit])
+                mon.case = {'generated': descr, 'class': 'structured', 'ratio_p_q': [p, q], 'ratio_carried_by': mode,
+                            'frequency': [f_val, f_unit]}
+                if mode == 'replace(frequency=)':
+                    c = dataclasses.replace(ch, frequency=sc.scalar(f_val, unit=f_unit))
+                else:
+                    c = build(dict(case, f=(f_val, f_unit)), DiskChopper)
+        except Exception:  # noqa: BLE001  (a refused construction is judged by the constructor monitor)
+            ctx.count('structured:chopper for a rational ratio not constructed')
+            continue
+        mon.case = {'generated': descr, 'class': 'structured', 'ratio_p_q': [p, q], 'ratio_carried_by': mode,
+                    'frequency': [float(c.frequency.value), str(c.frequency.unit)],
+                    'pulse_frequency': [float(fp.value), str(fp.unit)]}
+        npulses = (q if (item + r) % 2 else (1, 2, 3, 4, min(m, 4))[((item + r) // 2) % 5],)
+        calls = [(name, (lambda nm: lambda: getattr(c, nm)(pulse_frequency=fp))(name)) for name in STRUCT_ENTRIES[:3]]
+        calls += [('from_disk_chopper', (lambda k: lambda: call_cascade(Chopper, c, fp, k, CASCADE_FORMS[(item + r + k) % 5]))(k))
+                  for k in npulses]
+        for name, f in calls:
+            try:
+                f()
+            except Exception:  # noqa: BLE001  (judged by the monitor)
+                pass
+            ctx.case((name, 'structured', case['structured'], q, mode, sign))
+            ctx.count('structured_out_of_phase_calls')
+        ctx.hit(f'ratio {p}/{q} on structured slits')
+        ctx.hit(f'rational ratio carried by: {mode}')
+        ctx.hit('rational ratio, ' + ('clockwise' if sign < 0 else 'anticlockwise'))
+        if whole:
+            ctx.hit('rational ratio of whole-number frequencies')
+
+
+# IN-PLACE MODIFICATION BETWEEN TWO CALLS / ALIASING OF RESULTS AND ARGUMENTS.  scipp variables are mutable: a caller
+# may rewrite the pulse frequency, an angle array or a field of the chopper in place and call again with the very
+# same objects.  What is reported then is judged (by the monitors) against the disk with the NEW contents and
+# compared bit for bit with the same calls on a chopper freshly constructed from copies of the new contents; results
+# obtained earlier keep their bits; writing into a result changes neither the chopper nor the arguments nor what a
+# repetition of the call returns.
+INPLACE_MODS = ('pulse_frequency.value to another in-phase ratio', 'pulse_frequency.value out of phase',
+                'pulse_frequency.unit', 'pulse_frequency *= 2', 'frequency.value to another in-phase ratio',
+                'frequency.value out of phase', 'frequency sign', 'frequency.unit', 'phase.value', 'phase.unit',
+                'beam_position +=', 'slit_begin element', 'slit_end slice', 'slit edges to the other angle unit',
+                'out of phase, then in phase again')
+
+
+def _call_all(ch, fp, ang, Chopper):
+    """name -> result object or _Raised, for every computational entry point."""
+    out = {}
+    for name, f in (('time_offset_open', lambda: ch.time_offset_open(pulse_frequency=fp)),
+                    ('time_offset_close', lambda: ch.time_offset_close(pulse_frequency=fp)),
+                    ('open_duration', lambda: ch.open_duration(pulse_frequency=fp)),
+                    ('time_offset_angle_at_beam', lambda: ch.time_offset_angle_at_beam(angle=ang, n_repetitions=2)),
+                    ('time_offset_angle_at_beam(scalar)', lambda: ch.time_offset_angle_at_beam(angle=ang[ang.dims[-1], 0])),
+                    ('from_disk_chopper(1)', lambda: call_cascade(Chopper, ch, fp, 1)),
+                    ('from_disk_chopper(3)', lambda: call_cascade(Chopper, ch, fp, 3, 'keyword'))):
+        try:
+            out[name] = f()
+        except Exception as e:  # noqa: BLE001  (judged by the monitor)
+            out[name] = _Raised(f'raised {type(e).__name__}')
+    return out
+
+
+def _parts(r):
+    """The variables a result consists of."""
+    if isinstance(r, sc.Variable):
+        return {'': r}
+    if isinstance(r, _Raised):
+        return {}
+    return {'.time_open': r.time_open, '.time_close': r.time_close, '.distance': r.distance}
+
+
+def _bits_of(res):
+    return {n: (r if isinstance(r, _Raised) else tuple(_fingerprint(v) for v in _parts(r).values()))
+            for n, r in res.items()}
+
+
+def _fresh_twin(ch, DiskChopper):
+    """A chopper constructed from copies of the current contents of ``ch`` (no object in common with it)."""
+    return DiskChopper(**{n: (v.copy() if isinstance(v, sc.Variable) else v)
+                          for n in FIELD_NAMES for v in [getattr(ch, n)]})
+
+
+def _f_unit_name(v):
+    for name in F_UNITS:
+        if v.unit == sc.Unit(name):
+            return name
+    raise AssertionError(str(v.unit))
+
+
+def apply_inplace(mod, ch, fp, rng):
+    """Rewrite one operand in place.  Returns True when the new contents are still an in-phase chopper."""
+    ratio = abs(_scalar(ch.frequency)) / _scalar(fp)
+    other = 2.0 if ratio < 1.5 else 0.5           # ratio n -> 2n or n/2, 1/n -> 2/n (n = 2, 4: 1, 1/2) or ...
+    if mod.startswith('pulse_frequency.value to another'):
+        # halve or double the source frequency: ratio r -> 2r or r/2; r in {1/2, 1, 2, 4} stays n or 1/n
+        fp.value = fp.value / other
+    elif mod == 'pulse_frequency.value out of phase':
+        fp.value = fp.value * 1.37
+        return False
+    elif mod == 'pulse_frequency.unit':
+        # another unit and the value that makes it twice / half the frequency it was
+        new = {'Hz': 'kHz', 'kHz': '1/min', '1/min': 'Hz'}[_f_unit_name(fp)]
+        hz = float(_scalar(fp))
+        fp.unit = new
+        fp.value = hz / F_UNIT_HZ[new] * (2.0 if ratio >= 1.5 else 0.5)
+    elif mod == 'pulse_frequency *= 2':
+        if ratio >= 1.5:
+            fp *= 2.0
+        else:
+            fp *= 0.5
+    elif mod.startswith('frequency.value to another'):
+        f = ch.frequency
+        f.value = f.value * other
+    elif mod == 'frequency.value out of phase':
+        f = ch.frequency
+        f.value = f.value * 1.37
+        return False
+    elif mod == 'frequency sign':
+        f = ch.frequency
+        f *= -1.0
+    elif mod == 'frequency.unit':
+        f = ch.frequency
+        hz = float(_scalar(f))
+        new = {'Hz': '1/min', 'kHz': 'Hz', '1/min': 'kHz'}[_f_unit_name(f)]
+        f.unit = new
+        f.value = hz / F_UNIT_HZ[new] * other
+    elif mod == 'phase.value':
+        ch.phase.value = float(ch.phase.value) + float(rng.uniform(0.3, 2.5))
+    elif mod == 'phase.unit':
+        v = ch.phase
+        new = 'rad' if str(v.unit) == 'deg' else 'deg'
+        v.unit = new          # the same number, now in the other unit: another phase
+    elif mod == 'beam_position +=':
+        v = ch.beam_position
+        v += sc.scalar(float(rng.uniform(0.2, 2.0)), unit='rad').to(unit=v.unit)
+    elif mod == 'slit_begin element':
+        b, e = ch.slit_begin, ch.slit_end
+        j = int(rng.integers(0, b.shape[0]))
+        b.values[j] = b.values[j] + 0.5 * (e.values[j] - b.values[j])       # the slit is half as wide now
+    elif mod == 'slit_end slice':
+        b, e = ch.slit_begin, ch.slit_end
+        d = e.dims[0]
+        e[d, 0:1] = (b[d, 0:1] + 0.25 * (e[d, 0:1] - b[d, 0:1])).copy()
+    elif mod == 'slit edges to the other angle unit':
+        for v in (ch.slit_begin, ch.slit_end):
+            if str(v.unit) == 'deg':
+                v.values = np.radians(v.values) * 0.5     # every slit half as far round and half as wide
+                v.unit = 'rad'
+            else:
+                v.values = np.degrees(v.values) * 0.5
+                v.unit = 'deg'
+    else:
+        raise AssertionError(mod)
+    return True
+
+
+def drive_inplace(mod, case, ch, ctx, mon, DiskChopper, Chopper, rng):
+    fp = sc.scalar(case['fp'][0], unit=case['fp'][1])
+    ang = sc.array(dims=[case.get('dim', 'slit')], values=rng.uniform(-1.0, 2.0, size=4) * _turn(case['a_unit']),
+                   unit=case['a_unit'])
+    descr = case_descr(case)
+    first = _call_all(ch, fp, ang, Chopper)
+    first_bits = _bits_of(first)
+    if any(isinstance(r, _Raised) for r in first.values()):
+        ctx.count('inplace.not_started:first computation raised')      # judged by the monitors
+        return
+    check_state(mon, ctx, ch, 'the computational calls')
+    steps = ('pulse_frequency.value out of phase', 'pulse_frequency.value back') if mod.startswith('out of phase, then') \
+        else (mod,)
+    fp_before = fp.copy()
+    for step in steps:
+        if step == 'pulse_frequency.value back':
+            fp.value = fp_before.value
+            in_phase = True
+        else:
+            in_phase = apply_inplace(step, ch, fp, rng)
+        mon.rebase(ch)
+        mon.case = {'generated': descr, 'class': 'inplace', 'modified_in_place': step,
+                    'chopper_now': _describe(ch), 'pulse_frequency_now': [float(fp.value), str(fp.unit)]}
+        # (l1) results obtained earlier keep their bits although an argument was rewritten
+        ctx.event('alias.earlier_result_compared')
+        now_first = _bits_of(first)
+        changed = sorted(n for n in first_bits if now_first[n] != first_bits[n])
+        if changed:
+            ctx.violation('alias.result_changed_with_argument', f'after {step} (in place): the result(s) of {changed} '
+                          'obtained BEFORE the modification changed with it', dict(mon.case, calls=changed), op=step)
+        # (k) the very same objects again: judged by the monitors against the new contents ...
+        second = _call_all(ch, fp, ang, Chopper)
+        for name, r in second.items():
+            ctx.case(('inplace', step, name))
+        # ... and bit for bit what a chopper constructed from copies of the new contents returns
+        try:
+            twin = _fresh_twin(ch, DiskChopper)
+        except Exception:  # noqa: BLE001
+            ctx.oracle_error('C10 inplace twin')
+            return
+        want = _bits_of(_call_all(twin, fp.copy(), ang.copy(), Chopper))
+        got = _bits_of(second)
+        ctx.event('inplace.second_call_compared')
+        stale = sorted(n for n in want if got[n] != want[n])
+        if stale:
+            same_as_before = sorted(n for n in stale if got[n] == first_bits[n])
+            ctx.violation('inplace.stale_result', f'after {step} (in place) {stale} called with the very same objects do(es) '
+                          'not return what a chopper constructed from the new contents returns'
+                          + (f'; {same_as_before} still return(s) the bits from before the modification' if same_as_before else ''),
+                          dict(mon.case, calls=stale, identical_to_result_before=same_as_before), op=step,
+                          stale=bool(same_as_before))
+        if not in_phase:
+            refused = [n for n in ('time_offset_open', 'time_offset_close', 'open_duration', 'from_disk_chopper(1)',
+                                   'from_disk_chopper(3)') if isinstance(second[n], _Raised)]
+            ctx.count('inplace.out_of_phase_refusals', len(refused))
+    ctx.hit(f'modified in place: {mod}')
+    ctx.count('inplace_sequences')
+
+
+def drive_alias(case, ch, ctx, mon, Chopper, rng):
+    """(l2) write in place into every result: the chopper, the pulse frequency and the angles keep their bits and a
+    repetition of the call returns the original bits."""
+    fp = sc.scalar(case['fp'][0], unit=case['fp'][1])
+    ang = sc.array(dims=[case.get('dim', 'slit')], values=rng.uniform(-1.0, 2.0, size=4) * _turn(case['a_unit']),
+                   unit=case['a_unit'])
+    first = _call_all(ch, fp, ang, Chopper)
+    if any(isinstance(r, _Raised) for r in first.values()):
+        ctx.count('alias.not_started:first computation raised')
+        return
+    base = _bits_of(first)
+    fp_bits, ang_bits = _fingerprint(fp), _fingerprint(ang)
+    for name, r in first.items():
+        for part, v in _parts(r).items():
+            for how in ('values', 'scale', 'unit'):
+                try:
+                    if how == 'values':
+                        v.values = np.full(v.shape, np.nan) if v.ndim else np.nan
+                    elif how == 'scale':
+                        v *= -3.0
+                    else:
+                        v.unit = 'K'
+                except Exception as e:  # noqa: BLE001
+                    ctx.count(f'alias.result_not_writable:{how}:{type(e).__name__}')
+                    continue
+                ctx.event('alias.result_written')
+                ok = check_state(mon, ctx, ch, f'writing into the result of {name}{part}')
+                if _fingerprint(fp) != fp_bits or _fingerprint(ang) != ang_bits:
+                    ok = False
+                    ctx.violation('alias.argument_changed_with_result', f'writing ({how}) into the result of {name}{part} '
+                                  'changed ' + ('the pulse frequency' if _fingerprint(fp) != fp_bits else 'the angles')
+                                  + ' it was computed from', dict(mon.case, call=name, part=part), call=name)
+                if not ok:
+                    return
+        ctx.case(('alias', name))
+    again = _bits_of(_call_all(ch, fp, ang, Chopper))
+    ctx.event('alias.repetition_compared')
+    diff = sorted(n for n in base if again[n] != base[n])
+    if diff:
+        ctx.violation('alias.result_not_reproduced', f'after writing into the results, {diff} no longer return(s) what '
+                      'the same call on the same objects returned before', dict(mon.case, calls=diff), calls_n=len(diff))
+    ctx.hit('results written in place')
+
+
+# SIZES THAT COINCIDE with the sizes used inside: the rotations -1 .. n-1 (n + 1 of them, n = frequency ratio for the
+# direct calls, ceil(npulses x ratio) for the cascade), the 2 edges of a slit: number of slits / angles of exactly
+# that length, one below, one above (monitors judge every call).
+def size_grid():
+    g = []
+    for label, ratio in (('1/2', 0.5), ('1', 1.0), ('2', 2.0), ('3', 3.0), ('4', 4.0)):
+        nrep = max(int(ratio), 1)
+        for n in sorted({x for x in (nrep, nrep + 1, nrep + 2, 2, 3) if 1 <= x <= 6}):
+            g.append((label, ratio, n))
+    return g
+
+
+# DIMENSION NAMES THAT ARE NOT IN NFC / NFKC FORM: every string is used code point by code point.
+NON_NFC_DIMS = ('e\u0301dge', '\u212b', '\u212a', '\u2126', '\u00b5s', '\uff53\uff4c\uff49\uff54', 'sl\ufb01t',
+                '\u1109\u1173\u11af', 'slit\u037e')
+
+
+def check_result_dims(ctx, mon, ch, fp, Chopper, dim):
+    """1-d slit arrays along ``dim``: the openings are reported along the very same name."""
+    try:
+        got = {'time_offset_open': ch.time_offset_open(pulse_frequency=fp).dims,
+               'open_duration': ch.open_duration(pulse_frequency=fp).dims,
+               'time_offset_angle_at_beam': ch.time_offset_angle_at_beam(angle=ch.slit_begin).dims,
+               'from_disk_chopper': call_cascade(Chopper, ch, fp, 2).time_open.dims}
+    except Exception:  # noqa: BLE001  (judged by the monitors)
+        return
+    ctx.event('result.dim_name_compared')
+    bad = {k: list(v) for k, v in got.items() if tuple(v) != (dim,)}
+    if bad:
+        ctx.violation('result.dim_name', f'slit arrays along {dim!r} ({[hex(ord(c)) for c in dim]}): results along {bad}',
+                      dict(mon.case, dims=bad), calls_n=len(bad))
+
+
+# FIRST CALL IN A FRESH INTERPRETER: only the module of the entry point is imported (and scipp / numpy to write the
+# operands down); the bits must be those the worker process gets.
+FRESH_SCRIPT = r'''
+import json, sys
+import numpy as np
+import scipp as sc
+spec = json.loads(sys.argv[1])
+out = {}
+def var(d):
+    if d is None:
+        return None
+    if d['kind'] == 'vector':
+        return sc.vector(d['values'], unit=d['unit'])
+    if d['dims']:
+        return sc.array(dims=d['dims'], values=np.array(d['values'], dtype=d['dtype']), unit=d['unit'])
+    return sc.scalar(np.array(d['values'], dtype=d['dtype'])[()], unit=d['unit'])
+def enc(v):
+    return {'dims': list(v.dims), 'unit': str(v.unit), 'dtype': str(v.dtype), 'hex': np.ascontiguousarray(v.values).tobytes().hex()}
+fields = {k: var(v) for k, v in spec['fields'].items()}
+fp = var(spec['pulse_frequency'])
+which = spec['entry']
+try:
+    if which == 'from_disk_chopper':
+        from scippneutron.tof.chopper_cascade import Chopper
+        import scippneutron.chopper.disk_chopper as m
+        r = Chopper.from_disk_chopper(m.DiskChopper(**fields), fp, spec['npulses'])
+        out['result'] = [enc(r.time_open), enc(r.time_close), enc(r.distance)]
+    else:
+        import scippneutron.chopper.disk_chopper as m
+        ch = m.DiskChopper(**fields)
+        if which == 'time_offset_angle_at_beam':
+            r = ch.time_offset_angle_at_beam(angle=var(spec['angle']), n_repetitions=spec['n_repetitions'])
+        else:
+            r = getattr(ch, which)(pulse_frequency=fp)
+        out['result'] = [enc(r)]
+except BaseException as e:
+    out['raised'] = type(e).__name__ + ': ' + str(e)[:300]
+out['modules'] = sorted(k for k in sys.modules if k.startswith('scippneutron'))
+print('RESULT' + json.dumps(out))
+'''
+FRESH_ENTRIES = ('time_offset_open', 'time_offset_close', 'open_duration', 'time_offset_angle_at_beam', 'from_disk_chopper')
+
+
+def _var_spec(v):
+    if v is None:
+        return None
+    if v.dtype == sc.DType.vector3:
+        return {'kind': 'vector', 'values': [float(x) for x in v.value], 'unit': str(v.unit)}
+    return {'kind': 'array', 'dims': list(v.dims), 'values': np.asarray(v.values).tolist(), 'dtype': str(v.dtype),
+            'unit': str(v.unit)}
+
+
+def _enc(v):
+    return {'dims': list(v.dims), 'unit': str(v.unit), 'dtype': str(v.dtype),
+            'hex': np.ascontiguousarray(v.values).tobytes().hex()}
+
+
+def fresh_interpreter_call(entry, case, ch, ctx, mon, Chopper, rng):
+    import json
+    import os
+    import subprocess
+    import sys
+
+    fp = sc.scalar(case['fp'][0], unit=case['fp'][1])
+    spec = {'entry': entry, 'fields': {n: _var_spec(getattr(ch, n)) for n in FIELD_NAMES},
+            'pulse_frequency': _var_spec(fp), 'npulses': 3, 'n_repetitions': 2}
+    ang = sc.array(dims=['slit'], values=rng.uniform(-1.0, 2.0, size=3) * _turn(case['a_unit']), unit=case['a_unit'])
+    spec['angle'] = _var_spec(ang)
+    try:
+        if entry == 'from_disk_chopper':
+            r = call_cascade(Chopper, ch, fp, 3)
+            here = [_enc(r.time_open), _enc(r.time_close), _enc(r.distance)]
+        elif entry == 'time_offset_angle_at_beam':
+            here = [_enc(ch.time_offset_angle_at_beam(angle=ang, n_repetitions=2))]
+        else:
+            here = [_enc(getattr(ch, entry)(pulse_frequency=fp))]
+    except Exception:  # noqa: BLE001  (judged by the monitors)
+        ctx.count('fresh.not_judged:call raised in the worker')
+        return
+    env = dict(os.environ)        # PYTHONPATH of the worker: the tree under test first
+    try:
+        p = subprocess.run([sys.executable, '-c', FRESH_SCRIPT, json.dumps(spec)], env=env, capture_output=True,
+                           text=True, timeout=300)
+        line = [x for x in p.stdout.splitlines() if x.startswith('RESULT')]
+        if not line:
+            ctx.count('fresh.harness_failed')
+            ctx.inconclusive_because(f'C10 fresh interpreter: no result ({p.stderr[-300:]!r})')
+            return
+        out = json.loads(line[-1][len('RESULT'):])
+    except Exception:  # noqa: BLE001
+        ctx.oracle_error('C10 fresh interpreter')
+        return
+    ctx.event('fresh.first_call_compared')
+    ctx.hit(f'first call in a fresh interpreter: {entry}')
+    ctx.case(('fresh interpreter', entry))
+    wcase = dict(mon.case, entry=entry, modules_imported=out.get('modules'))
+    if 'raised' in out:
+        ctx.violation('fresh.raised', f'{entry} as the first call in a fresh interpreter raised {out["raised"]}; the '
+                      'same call in the worker process returned', wcase, entry=entry)
+    elif out['result'] != here:
+        ctx.violation('fresh.result_differs', f'{entry} as the first call in a fresh interpreter returns other bits than '
+                      'in the worker process', dict(wcase, fresh=out['result'], worker=here), entry=entry)
+
+
+def deterministic_round7(shard, rep, ctx, mon, DiskChopper, Chopper):
+    n_sh, me = int(shard.get('n_shards', N_SHARDS)), int(shard['index'])
+    rng_d = np.random.Generator(np.random.PCG64([shard['seed'], shard['index'], 10, 4, rep]))
+
+    def built(case):
+        try:
+            return build(case, DiskChopper)
+        except Exception:  # noqa: BLE001  (judged by the monitors through PY_UNWIND)
+            return None
+
+    # -- structured slit sets x rational ratios
+    for j, ((kind, n, m), listing, a_unit, tdc) in enumerate(struct_grid(rep)):
+        if (j + rep) % n_sh != me:
+            continue
+        structured = (kind, n, m) in STRUCT_KINDS
+        exact = STRUCT_EXACT[(j // n_sh + j + rep) % 4] if structured else 'exact'
+        case = struct_case(rng_d, j + rep, kind, n, m, listing, a_unit, tdc, exact)
+        descr = case_descr(case)
+        mon.new_case({'generated': descr, 'class': 'structured'})
+        before = ctx.n_violations
+        ch = built(case)
+        sig = ('structured', case['structured'], listing, a_unit, tdc, exact, case['ratio'], case['sign'])
+        ctx.case(('build', *sig))
+        ctx.count('structured_slit_sets')
+        ctx.hit(f'structured slits: {case["structured"]}')
+        ctx.hit(f'structured slits listed {listing}')
+        ctx.hit(f'structured slits in {a_unit}')
+        ctx.hit(f'structured slits: {tdc}')
+        if structured:
+            ctx.hit(f'structured slits: {exact}')
+        if ch is None:
+            ctx.count('structured:not constructed')
+        else:
+            drive(case, ch, ctx, Chopper, sig, (1, 2, 3) if j % 2 else (2, 4), mon=mon)
+            drive_rational(case, descr, ch, ctx, mon, DiskChopper, Chopper, j + rep, m)
+        if ctx.n_violations > before:
+            ctx.sample(descr)
+    # -- in-place modification between two calls; results written in place
+    for j, mod in enumerate((*INPLACE_MODS, 'alias')):
+        if (j + rep) % n_sh != me and not (me == 0 and j % 5 == rep % 5):
+            continue
+        case = gen_dim_case(rng_d, ('slit', 'edge', 'x')[j % 3], 1 + (j + rep) % 4, (-1, 1)[j % 2], 'one', j)
+        # ratio 1, 2 or 4 of either sense, same or different frequency units (halved / doubled it stays n or 1/n)
+        r0 = (1.0, 2.0, 4.0, 0.5)[(j + rep) % 4]
+        case['f'] = (case['f'][0] * r0, case['f'][1])
+        case['ratio'] = {1.0: '1', 2.0: '2', 4.0: '4', 0.5: '1/2'}[r0]
+        case.update(via='ctor', form='keyword', cascade_form='positional', inplace=mod)
+        mon.new_case({'generated': case_descr(case), 'class': 'inplace'})
+        before = ctx.n_violations
+        ch = built(case)
+        if ch is None:
+            ctx.count('inplace:not constructed')
+            continue
+        if mod == 'alias':
+            drive_alias(case, ch, ctx, mon, Chopper, rng_d)
+        else:
+            drive_inplace(mod, case, ch, ctx, mon, DiskChopper, Chopper, rng_d)
+        if ctx.n_violations > before:
+            ctx.sample(case_descr(case))
+    # -- sizes that coincide with the number of rotations / the two edges of a slit
+    for j, (label, ratio, n) in enumerate(size_grid()):
+        if (j + rep) % n_sh != me:
+            continue
+        case = gen_dim_case(rng_d, 'slit', n, (-1, 1)[j % 2], 'one', j)
+        case['f'] = (case['f'][0] * ratio, case['f'][1])
+        case.update(ratio=label, via='ctor', size_class=f'{n} slits at ratio {label}')
+        mon.new_case({'generated': case_descr(case), 'class': 'sizes'})
+        ch = built(case)
+        sig = ('sizes', label, n, case['sign'])
+        ctx.case(('build', *sig))
+        ctx.hit(f'number of slits vs rotations: {n} slit(s) at ratio {label}')
+        if ch is None:
+            continue
+        drive(case, ch, ctx, Chopper, sig, (1, 2, 3), mon=mon)
+        nrep = max(int(ratio), 1)
+        for ln in sorted({nrep, nrep + 1, nrep + 2, 2, 3}):
+            for shape, dims in (((ln,), ['slit']), ((ln, ln), ['row', 'slit']), ((2, ln), ['range', 'slit'])):
+                a = sc.array(dims=dims, values=rng_d.uniform(-1.0, 2.0, size=shape) * 360.0, unit='deg')
+                try:
+                    ch.time_offset_angle_at_beam(angle=a, n_repetitions=nrep)
+                except Exception:  # noqa: BLE001  (judged by the monitor)
+                    pass
+                ctx.case(('time_offset_angle_at_beam', 'sizes', len(shape), ln - nrep))
+        ctx.count('size_cases')
+    # -- dimension names that are not in NFC / NFKC form
+    for j, dim in enumerate(NON_NFC_DIMS):
+        if (j + rep) % n_sh != me:
+            continue
+        case = gen_dim_case(rng_d, dim, 1 + (j + rep) % 6, (-1, 1)[j % 2], ('sub', 'one', 'ge')[(j + rep) % 3], j + rep)
+        descr = case_descr(case)
+        mon.new_case({'generated': descr, 'class': 'non-NFC dimension name'})
+        before = ctx.n_violations
+        ch = built(case)
+        sig = ('non-NFC dimension', j, case['n_slits'], case['sign'], case['ratio_class'], case['via'])
+        ctx.case(('build', *sig))
+        ctx.hit(f'slit dimension not in NFC/NFKC form: {dim!a}')
+        if ch is not None:
+            drive(case, ch, ctx, Chopper, sig, (1, 2), mon=mon)
+            check_result_dims(ctx, mon, ch, sc.scalar(case['fp'][0], unit=case['fp'][1]), Chopper, dim)
+        else:
+            ctx.count('non_nfc:not constructed')
+        if ctx.n_violations > before:
+            ctx.sample(descr)
+    # -- first call in a fresh interpreter (one entry point per shard: the cascade on shard 0, the others on 1, 3, 5, 7)
+    for j, entry in enumerate(FRESH_ENTRIES):
+        if rep != 0 or me != (0 if entry == 'from_disk_chopper' else 1 + 2 * j):
+            continue
+        case = gen_dim_case(rng_d, 'slit', 2 + j % 3, (-1, 1)[(j + me) % 2], ('ge', 'one', 'sub')[(j + me) % 3], 0)
+        case.update(via='ctor', form='keyword')
+        mon.new_case({'generated': case_descr(case), 'class': 'fresh interpreter'})
+        ch = built(case)
+        if ch is not None:
+            fresh_interpreter_call(entry, case, ch, ctx, mon, Chopper, rng_d)
+
+
 def run(shard, ctx):
     from scippneutron.chopper import DiskChopper
     from scippneutron.chopper import disk_chopper as dcm
@@ -2058,6 +2779,7 @@ def run(shard, ctx):
                     pass
                 ctx.count(f'threshold_set_built:{cls}')
             deterministic_round6(shard, rep, ctx, mon, DiskChopper, Chopper)
+            deterministic_round7(shard, rep, ctx, mon, DiskChopper, Chopper)
         # -- random part
         rng_f = np.random.Generator(np.random.PCG64([shard['seed'], shard['index'], 10, 2]))
         for i in range(shard['choppers']):
